@@ -315,6 +315,26 @@ def run(ctx: Any, prog: Program) -> None:
         ctx.check('C02.T2', not leaks, tk, st, f'escape_text returns its argument unchanged when `{what[:70]}`: strings passing that test can still contain {sorted(leaks)!r}'
                   + (' (`$` also matches in front of a line feed that ends the string)' if leaks == {'\n'} else '') + ', which single-line mode has to escape', func='escape_text', text='fast path lets nothing through that needs escaping')
     shape_ok = False
+    # every character that needs escaping is escaped: a substitution limited by a count (the third positional argument of Pattern.sub is
+    # `count` - `re.MULTILINE` passed there means "the first 8 matches") leaves the rest of the text raw
+    for c_ in ast.walk(et):
+        if isinstance(c_, ast.Call) and isinstance(c_.func, ast.Attribute) and c_.func.attr in ('sub', 'subn'):
+            cnt = c_.args[2] if len(c_.args) > 2 else next((k.value for k in c_.keywords if k.arg == 'count'), None)
+            unlimited = cnt is None or (isinstance(cnt, ast.Constant) and cnt.value == 0)
+            ctx.check('C02.T2', unlimited, tk, c_, f'`{U(c_)[:80]}` limits the substitution to `{U(cnt) if cnt is not None else ""}` matches (third argument of Pattern.sub is the count): characters after that many escapes are '
+                      'copied raw - a later quote ends the string early', func='escape_text', text='substitution not limited by a count')
+    # the two-return spelling `if multiline: return A.sub(f, text)` / `return B.sub(f, text)` is the conditional expression written out
+    et_body = [b for b in et.body if not (isinstance(b, ast.Expr) and isinstance(b.value, ast.Constant))]
+    if len(rets) == 2 and len(et_body) == 2 and isinstance(et_body[0], ast.If) and not et_body[0].orelse and len(et_body[0].body) == 1 and isinstance(et_body[0].body[0], ast.Return) and isinstance(et_body[1], ast.Return):
+        rets = [et_body[0].body[0], et_body[1]]
+    if len(rets) == 2 and len(et_body) == 2 and isinstance(et_body[0], ast.If) and not et_body[0].orelse and len(et_body[0].body) == 1 and et_body[0].body[0] is rets[0] and et_body[1] is rets[1] \
+            and all(isinstance(r.value, ast.Call) and isinstance(r.value.func, ast.Attribute) and r.value.func.attr == 'sub' and len(r.value.args) >= 2 for r in rets) \
+            and [U(a) for a in rets[0].value.args[:2]] == [U(a) for a in rets[1].value.args[:2]]:
+        synth_sel = ast.IfExp(test=et_body[0].test, body=rets[0].value.func.value, orelse=rets[1].value.func.value)
+        synth = ast.Return(value=ast.Call(func=ast.Attribute(value=synth_sel, attr='sub', ctx=ast.Load()), args=list(rets[0].value.args[:2]), keywords=[]))
+        ast.copy_location(synth, rets[0])
+        ast.fix_missing_locations(synth)
+        rets = [synth]
     detail = 'escape_text must be a single `.sub(_escape_matcher, text)` on the regex chosen by `multiline`'
     if len(rets) == 1 and isinstance(rets[0].value, ast.Call) and isinstance(rets[0].value.func, ast.Attribute) \
             and rets[0].value.func.attr == 'sub' and len(rets[0].value.args) == 2:
@@ -419,13 +439,42 @@ def run(ctx: Any, prog: Program) -> None:
                 if isinstance(t, ast.Attribute) and isinstance(t.value, ast.Name) and t.value.id == 'self':
                     initialised.add(t.attr)
     seen9: Set[str] = set()
+    # only what the handler *decides* on matters: reads inside the tests of if / while / conditional expressions (a line number copied into an
+    # error message decides nothing)
+    in_test9 = {id(x) for t_ in walk_no_nested(hs9) if isinstance(t_, (ast.If, ast.While, ast.IfExp)) for x in ast.walk(t_.test)}
     for n in walk_no_nested(hs9):
-        if isinstance(n, ast.Attribute) and isinstance(n.ctx, ast.Load) and isinstance(n.value, ast.Name) and n.value.id == 'self' and id(n) not in call_funcs and n.attr not in seen9:
+        if isinstance(n, ast.Attribute) and isinstance(n.ctx, ast.Load) and isinstance(n.value, ast.Name) and n.value.id == 'self' and id(n) not in call_funcs and n.attr not in seen9 and id(n) in in_test9:
             seen9.add(n.attr)
             w = attr_writers.get(n.attr, set())
             ctx.check('C02.T9', w <= {'__init__'} or n.attr in initialised, tk, n,
                       f'_handle_string reads self.{n.attr}, which is also written by {sorted(w - {"__init__", "_handle_string"}) or sorted(w)} and is not set on entry to the handler: '
                       'what a quoted string decodes to then depends on the text in front of it', func='Tokenizer._handle_string', text=f'self.{n.attr} is configuration or initialised by the handler')
+
+    # ---- T10: the handler refuses nothing but the end of the input ------------------------------------------------------------------------------
+    # every character can stand inside a quoted string (escape_text decides which ones are written raw), so the string handler - and any private
+    # helper it calls - raises only where it has just seen that the input ended (`<char> is None`).  A `raise` under any other condition refuses
+    # some string that the writer produces (a "helpful" early error for a line that holds only a brace).
+    ctx.rule('C02.T10', 'the string handler and its helpers raise only at the end of the input', floor=1)
+    tm10 = tk.methods('Tokenizer')
+    scope10 = [('_handle_string', hs9)]
+    for c_ in walk_no_nested(hs9):
+        if isinstance(c_, ast.Call) and isinstance(c_.func, ast.Attribute) and dotted(c_.func.value) == 'self' and c_.func.attr in tm10 and c_.func.attr not in ('_next_char', 'error', '_handle_string') \
+                and c_.func.attr.startswith('_') and (c_.func.attr, tm10[c_.func.attr]) not in scope10:
+            scope10.append((c_.func.attr, tm10[c_.func.attr]))
+    for q10, f10 in scope10:
+        for r_ in [x for x in walk_no_nested(f10) if isinstance(x, ast.Raise)]:
+            guards10 = []
+            ch_, par_ = r_, tk.parents.get(r_)
+            while par_ is not None and par_ is not f10:
+                if isinstance(par_, ast.If):
+                    guards10.append((par_.test, ch_ in par_.body))
+                if isinstance(par_, ast.ExceptHandler):
+                    guards10.append((par_, True))
+                ch_, par_ = par_, tk.parents.get(par_)
+            at_eof = any(pol and isinstance(t_, ast.Compare) and len(t_.ops) == 1 and isinstance(t_.ops[0], ast.Is) and isinstance(t_.comparators[0], ast.Constant) and t_.comparators[0].value is None for t_, pol in guards10) \
+                or any(isinstance(t_, ast.ExceptHandler) for t_, _ in guards10)
+            ctx.check('C02.T10', at_eof, tk, r_, f'Tokenizer.{q10} raises under `{" and ".join(U(t_)[:50] for t_, _ in guards10 if not isinstance(t_, ast.ExceptHandler)) or "no condition"}`, which is not the end of the input: '
+                      'a string whose text meets that condition is refused although escape_text writes it', func=f'Tokenizer.{q10}', text=f'{q10}: raise only at end of input')
 
     # ---- T3/T4/T5: transition function of _handle_string ------------------------------------------
     hs = tk.func('Tokenizer._handle_string')
@@ -631,6 +680,8 @@ def run(ctx: Any, prog: Program) -> None:
 
 
 MUTANTS = [
+    {'id': 'escape_sub_limited_by_flag_as_count', 'file': 'tokenizer.py', 'find': "    return (ESCAPE_MULTILINE_RE if multiline else ESCAPE_RE).sub(_escape_matcher, text)", 'replace': "    if multiline:\n        return ESCAPE_MULTILINE_RE.sub(_escape_matcher, text, re.MULTILINE)\n    return ESCAPE_RE.sub(_escape_matcher, text)", 'expect': 'C02.T2'},
+    {'id': 'ok_escape_two_returns', 'file': 'tokenizer.py', 'find': "    return (ESCAPE_MULTILINE_RE if multiline else ESCAPE_RE).sub(_escape_matcher, text)", 'replace': "    if multiline:\n        return ESCAPE_MULTILINE_RE.sub(_escape_matcher, text)\n    return ESCAPE_RE.sub(_escape_matcher, text)", 'expect': None},
     {'id': 'inv_table_extra_line_breaks_by_loop', 'file': 'tokenizer.py', 'find': "ESCAPE_RE = re.compile('|'.join(", 'replace': "for _char in '\\x85\\u2028':\n    ESCAPES_INV[_char] = ESCAPES_INV['\\n']\ndel _char\nESCAPE_RE = re.compile('|'.join(", 'expect': 'C02.T1'},
     {'id': 'handler_tests_shared_cr_flag', 'file': 'tokenizer.py', 'find': "                if last_was_cr:\n                    last_was_cr = False\n                    continue\n                self.line_num += 1\n            else:\n                last_was_cr = False\n\n            if next_char == '\\\\' and self.allow_escapes:\n                # Escape text\n                escape = self._next_char()", 'replace': "                if last_was_cr or self._last_was_cr:\n                    last_was_cr = self._last_was_cr = False\n                    continue\n                self.line_num += 1\n            else:\n                last_was_cr = False\n\n            if next_char == '\\\\' and self.allow_escapes:\n                # Escape text\n                escape = self._next_char()", 'expect': 'C02.T9'},
     {'id': 'next_char_filters_bom', 'file': 'tokenizer.py', 'find': "                        self._char_index = 0\n                        return chunk[0]\n", 'replace': "                        self._char_index = 0\n                        if chunk[0] == '\\uFEFF' and self.line_num == 1:\n                            return self._next_char()\n                        return chunk[0]\n", 'expect': 'C02.T8'},
